@@ -135,7 +135,7 @@ class DictDecoder:
                     raise ParserError(f"Unknown property {clazz.__qualname__}.{key}")
                 continue
 
-            if var.wrapper:
+            if var.wrapper and var.local_name != key:
                 value = value[var.local_name]
 
             value = self.bind_value(meta, var, value)
